@@ -58,6 +58,29 @@ def make_cases(ctx):
         return rng.choice([(0, 0, 0, 0), (0, 0, 1, 0), (1, 0, 0, 0), (12, 0, 0, 0), (23, 59, 59, 999999),
                            (rng.randint(0, 23), rng.randint(0, 59), rng.randint(0, 59), rng.choice([0, 1, 500000]))])
 
+    def gap_cases():
+        """time-only strings under zones with daylight saving, on and next to the transition days: wall times inside
+        the spring-forward gap, inside the fold, and ordinary ones"""
+        import pytz
+        for z in ["Europe/Berlin", "America/New_York", "Australia/Lord_Howe", "America/St_Johns", "Pacific/Auckland", "Europe/London", "America/Santiago"]:
+            tz = pytz.timezone(z)
+            tt = [(t, i) for i, t in enumerate(tz._utc_transition_times) if 2001 <= t.year <= 2036 and i > 0]
+            for t, i in rng.sample(tt, min(len(tt), 4 if ctx.quick() else 30)):
+                before, after = tz._transition_info[i - 1][0], tz._transition_info[i][0]
+                lo, hi = sorted([t + before, t + after])
+                if hi - lo < datetime.timedelta(minutes=2) or not (4 <= lo.day <= 25):
+                    continue          # (a shift across a month end meets the known month-override finding)
+                mid = (lo + (hi - lo) / 2).replace(second=0, microsecond=0)
+                for w in (mid, lo.replace(second=0, microsecond=0), (hi - datetime.timedelta(minutes=1)).replace(second=0, microsecond=0),
+                          (lo - datetime.timedelta(hours=3)).replace(second=0, microsecond=0)):
+                    for bshift in (0, -1, 1):
+                        bday = lo.date() + datetime.timedelta(days=bshift)
+                        base = (bday.year, bday.month, bday.day) + rng.choice([(0, 0, 0, 0), (12, 0, 0, 0), (23, 59, 59, 0), (w.hour, w.minute, 0, 0)])
+                        for pref in ("past", "future", "current_period"):
+                            s = rng.choice(["%d:%02d" % (w.hour, w.minute), "%02d:%02d:00" % (w.hour, w.minute),
+                                            "%d:%02d %s" % (w.hour % 12 or 12, w.minute, "am" if w.hour < 12 else "pm")])
+                            add("timegap", pref, base, s, t=(w.hour, w.minute, 0, 0), zone=(z, 0))
+
     def add(form, pref, base, s, w=0, t=(0, 0, 0, 0), m=0, d=0, yy=0, zone=("UTC", 0)):
         st = {"RELATIVE_BASE": list(base), "PREFER_DATES_FROM": pref, "TIMEZONE": zone[0]}
         cases.append({"form": form, "pref": pref, "base": list(base), "w": w, "t": list(t), "m": m, "d": d, "yy": yy,
@@ -102,6 +125,7 @@ def make_cases(ctx):
                     yy = rng.choice([0, 21, 30, 67, 68, 69, 70, 99, by % 100, (by + 1) % 100, (by - 1) % 100, rng.randint(0, 99)])
                     s = rng.choice(["%d %s %02d" % (d2, mn, yy), "%s %d, %02d" % (mn, d2, yy), "%02d/%02d/%02d" % (m, d2, yy)])
                     add("yy", pref, base, s, m=m, d=d2, yy=yy)
+    gap_cases()
     return cases
 
 
